@@ -256,7 +256,7 @@ Section Avail.
 
   Lemma commit_walk_av lcr : forall fuel parent acc s,
     AvInv s -> avail s parent -> (forall x, In x acc -> avail s x) ->
-    match commit_walk fuel lcr parent acc s with
+    match commit_walk src_dq fuel lcr parent acc s with
     | (s', o, r) =>
         AvInv s' /\ s_batches s' = s_batches s /\ (forall x, ~ In (OCommit x) o) /\
         (forall acc', r = ROk acc' -> forall x, In x acc' -> avail s' x)
@@ -264,7 +264,7 @@ Section Avail.
   Proof.
     induction fuel as [|f IH]; intros parent acc s H Hp Ha; simpl.
     - unfold panic. split; [exact H|]. split; [reflexivity|]. split; [intros x []|discriminate].
-    - gunf. destruct (_ <? _).
+    - gunfdq. destruct (_ <? _).
       2:{ unfold ret. split; [exact H|]. split; [reflexivity|]. split; [intros x []|].
           intros acc' E. inversion E; subst. exact Ha. }
       unfold bind at 1.
@@ -277,7 +277,7 @@ Section Avail.
           intros acc' E. inversion E; subst. exact Ha.
         * specialize (IH anc (anc :: acc) s H Hanc).
           assert (Ha' : forall x, In x (anc :: acc) -> avail s x) by (intros x [<-|Hx]; auto).
-          specialize (IH Ha'). destruct (commit_walk f lcr anc (anc :: acc) s) as [[s2 o2] r2].
+          specialize (IH Ha'). destruct (commit_walk _ f lcr anc (anc :: acc) s) as [[s2 o2] r2].
           destruct IH as [I2 [B2 [C2 P2]]]. split; [exact I2|]. split; [exact B2|]. split; [|exact P2].
           intros x Hx. apply in_app_or in Hx. destruct Hx as [Hx|Hx]; [eapply C1; eauto|eapply C2; eauto].
       + unfold panic. split; [exact I1|]. split; [exact B1|]. split; [intros x Hx; rewrite app_nil_r in Hx; eapply C1; eauto|discriminate].
@@ -303,15 +303,15 @@ Section Avail.
   Qed.
 
   Lemma commit_av b0 s : AvInv s -> avail s b0 ->
-    match commit true b0 s with
+    match commit src_dq b0 s with
     | (s', o, r) => AvInv s' /\ s_batches s' = s_batches s /\ (forall b, In (OCommit b) o -> avail s' b)
     end.
   Proof.
-    intros H Hb. unfold commit. gunf. unfold bind at 1. unfold get at 1.
+    intros H Hb. unfold commit. gunfdq. unfold bind at 1. unfold get at 1.
     destruct (_ <=? _); [unfold ret; split; [exact H|]; split; [reflexivity|intros x []]|].
     unfold bind at 1.
     pose proof (commit_walk_av (s_last_committed s) (S (S (ddepth (block_digest b0)))) b0 [] s H Hb (fun x (Hx : In x []) => match Hx with end)) as W.
-    destruct (commit_walk _ _ b0 [] s) as [[s1 o1] r1]. destruct W as [I1 [B1 [C1 P1]]].
+    destruct (commit_walk _ _ _ b0 [] s) as [[s1 o1] r1]. destruct W as [I1 [B1 [C1 P1]]].
     destruct r1 as [anc|e|k].
     2:{ split; [exact I1|]. split; [exact B1|]. intros b Hin. exfalso. eapply C1; eauto. }
     2:{ split; [exact I1|]. split; [exact B1|]. intros b Hin. exfalso. eapply C1; eauto. }
@@ -351,7 +351,7 @@ Section Avail.
   (* process_block is the only place where a node votes or commits; it is only ever entered with
      a block whose batches are stored, and everything it hands to the commit channel is stored too *)
   Lemma process_block_av hint b s : AvInv s -> avail s b ->
-    match process_block c me true hint b s with
+    match process_block c me src_dq hint b s with
     | (s', o, r) => AvInv s' /\ incl (s_batches s) (s_batches s') /\ (forall x, In (OCommit x) o -> avail s' x)
     end.
   Proof.
@@ -378,7 +378,7 @@ Section Avail.
     set (rest := fun (_ : unit) =>
       proposer_cleanup (b_payload b0 ++ b_payload b1 ++ b_payload b);;;
       (if b_round b0 + 1 =? b_round b1
-       then emit (OMemCleanup (b_round b0));;; pw_cleanup (b_round b0);;; commit true b0 else ret tt);;;
+       then emit (OMemCleanup (b_round b0));;; pw_cleanup (b_round b0);;; commit src_dq b0 else ret tt);;;
       (s <- get;;
        if negb (b_round b =? s_round s) then ret tt
        else ov <- make_vote me b;;
@@ -397,7 +397,7 @@ Section Avail.
       assert (H04 : avail s4 b0) by (eapply avail_mono; eauto).
       unfold bind at 1.
       assert (Cm : match (if b_round b0 + 1 =? b_round b1
-                          then emit (OMemCleanup (b_round b0));;; pw_cleanup (b_round b0);;; commit true b0 else ret tt) s4 with
+                          then emit (OMemCleanup (b_round b0));;; pw_cleanup (b_round b0);;; commit src_dq b0 else ret tt) s4 with
                    | (s', o, r) => AvInv s' /\ incl (s_batches s4) (s_batches s') /\ (forall x, In (OCommit x) o -> avail s' x)
                    end).
       { destruct (_ =? _).
@@ -407,7 +407,7 @@ Section Avail.
           destruct r5 as [[]|e|k]; [|split; [exact I5|]; split; [exact B5|]; intros x [Hx|Hx]; [discriminate|apply C5; exact Hx]
                                      |split; [exact I5|]; split; [exact B5|]; intros x [Hx|Hx]; [discriminate|apply C5; exact Hx]].
           pose proof (commit_av b0 s5 I5 (avail_mono _ _ _ B5 H04)) as K.
-          destruct (commit true b0 s5) as [[s6 o6] r6]. destruct K as [I6 [B6 C6]].
+          destruct (commit src_dq b0 s5) as [[s6 o6] r6]. destruct K as [I6 [B6 C6]].
           split; [exact I6|]. split; [rewrite B6; exact B5|].
           intros x Hx. simpl in Hx. destruct Hx as [Hx|Hx]; [discriminate|].
           apply in_app_or in Hx. destruct Hx as [Hx|Hx].
@@ -455,7 +455,7 @@ Section Avail.
   Lemma good_Post {A} (m : M A) s : good m -> AvInv s -> Post s (m s).
   Proof. intros G H. specialize (G s H). unfold Post. destruct (m s) as [[s' o] r]. exact G. Qed.
 
-  Lemma handle_proposal_av hint b s : AvInv s -> Post s (handle_proposal c me true hint b s).
+  Lemma handle_proposal_av hint b s : AvInv s -> Post s (handle_proposal c me src_dq hint b s).
   Proof.
     intros H. unfold Post, handle_proposal. unfold bind at 1.
     destruct (b_author b =? leader c (b_round b)).
@@ -485,7 +485,7 @@ Section Avail.
     assert (B03 : incl (s_batches s) (s_batches s3)) by (rewrite B3; eapply incl_tran; eauto).
     destruct ok.
     - pose proof (process_block_av hint b s3 I3 (A3 eq_refl)) as PB.
-      destruct (process_block c me true hint b s3) as [[s4 o4] r4]. destruct PB as [I4 [B4 C4]].
+      destruct (process_block c me src_dq hint b s3) as [[s4 o4] r4]. destruct PB as [I4 [B4 C4]].
       split; [exact I4|]. split; [eapply incl_tran; eauto|].
       intros x Hx. simpl in Hx.
       repeat (apply in_app_or in Hx; destruct Hx as [Hx|Hx]).
@@ -508,7 +508,7 @@ Section Avail.
     match e with EvDigest d => In d (s_batches s) | _ => True end.
 
   Theorem c08_step hint e s :
-    AvInv s -> ev_av s e -> Post s (step c me true hint e s).
+    AvInv s -> ev_av s e -> Post s (step c me src_dq hint e s).
   Proof.
     intros H Ha. destruct e as [b|v|t|tc|b| |d|d| ]; cbn [step ev_av] in *.
     - apply handle_proposal_av. exact H.
@@ -530,7 +530,7 @@ Section Avail.
       assert (I1 : AvInv s1).
       { destruct H. constructor; simpl; auto. intros y Hy. apply av_loop0. apply Hl. exact Hy. }
       pose proof (process_block_av hint x s1 I1 (av_loop s H x Hx)) as PB.
-      destruct (process_block c me true hint x s1) as [[s2 o2] r2]. exact PB.
+      destruct (process_block c me src_dq hint x s1) as [[s2 o2] r2]. exact PB.
     - apply good_Post; [apply good_local_timeout|exact H].
     - apply good_Post; [apply good_batch_stored|exact H].
     - unfold Post, modify. destruct (memN d (s_buffer s)); simpl.
